@@ -27,12 +27,14 @@
 (***************************************************************************)
 EXTENDS Naturals, FiniteSets, Sequences, TLC
 
-CONSTANTS Writers, Files, DirOf, Req, Style, Privileged, KnownDev, MaxCrashes
+CONSTANTS Writers, Files, DirOf, Req, Style, Privileged, Mixed, KnownDev, MaxCrashes
+\* Mixed = every writer runs under its own (unprivileged) uid on a group-shared store: a chmod of a file another
+\* writer owns gives EPERM, which protect() swallows
 \* Req[w] = the file objects writer w adds; DirOf[w] = its directory object; Style[w] = "transfer" | "add"
 Objects == UNION {Req[w] : w \in Writers} \cup {DirOf[w] : w \in Writers}
 
-VARIABLES final, prot, gen, vouch, tmp, pc, todo, batch, first, probed, failedW, crashes, clock, dev, act
-vars == <<final, prot, gen, vouch, tmp, pc, todo, batch, first, probed, failedW, crashes, clock, dev, act>>
+VARIABLES final, prot, gen, vouch, tmp, pc, todo, batch, first, probed, failedW, crashes, clock, dev, act, owner, tried
+vars == <<final, prot, gen, vouch, tmp, pc, todo, batch, first, probed, failedW, crashes, clock, dev, act, owner, tried>>
 
 Intact(o) == final[o] = "ok"
 Vouched(o) == vouch[o] # 0 /\ vouch[o] = gen[o]       \* a row whose token matches the file now there
@@ -54,10 +56,10 @@ Query(w) ==
                \* (re-hashing an unprotected object through the state cache records a row for it)
                /\ vouch' = [o \in Objects |-> IF o \in all /\ final[o] = "ok" /\ ~prot[o] THEN gen[o] ELSE vouch[o]]
           ELSE /\ todo' = [todo EXCEPT ![w] = {o \in all : final[o] = "none"}]
-               /\ UNCHANGED <<final, prot, vouch>>
+               /\ UNCHANGED <<final, prot, vouch, owner, tried>>
     /\ pc' = [pc EXCEPT ![w] = "files"] /\ batch' = [batch EXCEPT ![w] = {}] /\ first' = [first EXCEPT ![w] = "yes"]
     /\ act' = [op |-> "Query", w |-> w]
-    /\ UNCHANGED <<gen, tmp, failedW, crashes, clock, dev, probed>>
+    /\ UNCHANGED <<gen, tmp, failedW, crashes, clock, dev, probed, owner, tried>>
 
 Phase(w) == pc[w] \in {"files", "dir"}
 Pending(w) == todo[w] \cap BatchOf(w, pc[w])
@@ -79,15 +81,16 @@ ProbeOpen(w, o) ==
             /\ first' = [first EXCEPT ![w] = "unlink"]
             /\ UNCHANGED <<failedW, pc, dev>>
     /\ probed' = [probed EXCEPT ![w] = o]
+    /\ owner' = IF final[o] = "none" THEN [owner EXCEPT ![o] = w] ELSE owner     \* O_CREAT makes it ours only when it was not there
     /\ act' = [op |-> "ProbeOpen", w |-> w, o |-> o]
-    /\ UNCHANGED <<prot, vouch, tmp, todo, batch, crashes>>
+    /\ UNCHANGED <<prot, vouch, tmp, todo, batch, crashes, tried>>
 \* ... ioctl(FICLONE) fails, os.unlink(final)
 ProbeUnlink(w, o) ==
     /\ Phase(w) /\ first[w] = "unlink" /\ o \in Pending(w) /\ tmp[w][o] = "none" /\ probed[w] = o
     /\ final' = [final EXCEPT ![o] = "none"] /\ prot' = [prot EXCEPT ![o] = FALSE]
     /\ first' = [first EXCEPT ![w] = "probed"]
     /\ act' = [op |-> "ProbeUnlink", w |-> w, o |-> o]
-    /\ UNCHANGED <<gen, vouch, tmp, pc, todo, batch, failedW, crashes, clock, dev, probed>>
+    /\ UNCHANGED <<gen, vouch, tmp, pc, todo, batch, failedW, crashes, clock, dev, probed, owner, tried>>
 \* the probed object is copied first, the others afterwards (one put_file each: copy to a temporary name, rename)
 CanCopy(w, o) == /\ Phase(w) /\ o \in Pending(w) /\ tmp[w][o] = "none"
                  /\ (first[w] = "probed" /\ probed[w] = o) \/ first[w] = "copied" \/ (pc[w] = "dir" /\ Style[w] = "add")
@@ -96,42 +99,47 @@ TmpCopy(w, o) ==
     /\ tmp' = [tmp EXCEPT ![w][o] = "full"]
     /\ first' = [first EXCEPT ![w] = "copied"]
     /\ act' = [op |-> "TmpCopy", w |-> w, o |-> o]
-    /\ UNCHANGED <<final, prot, gen, vouch, pc, todo, batch, failedW, crashes, clock, dev, probed>>
+    /\ UNCHANGED <<final, prot, gen, vouch, pc, todo, batch, failedW, crashes, clock, dev, probed, owner, tried>>
 Rename(w, o) ==
     /\ Phase(w) /\ tmp[w][o] = "full"
     /\ final' = [final EXCEPT ![o] = "ok"] /\ prot' = [prot EXCEPT ![o] = FALSE]
     /\ gen' = [gen EXCEPT ![o] = clock] /\ clock' = clock + 1
     /\ tmp' = [tmp EXCEPT ![w][o] = "none"]
     /\ todo' = [todo EXCEPT ![w] = @ \ {o}] /\ batch' = [batch EXCEPT ![w] = @ \cup {o}]
+    /\ owner' = [owner EXCEPT ![o] = w]
     /\ act' = [op |-> "Rename", w |-> w, o |-> o]
-    /\ UNCHANGED <<vouch, pc, first, failedW, crashes, dev, probed>>
+    /\ UNCHANGED <<vouch, pc, first, failedW, crashes, dev, probed, tried>>
 \* HashFileDB.add epilogue: protect every oid passed to the call, then one save_many transaction vouching for each
 \* of them as it is at that moment.  transfer() passes only what its status query found missing; add()-style
 \* callers (index.save, build with upload) pass the whole batch, also what "already exists".
 Epilogue(w) == IF Style[w] = "transfer" THEN batch[w] ELSE BatchOf(w, pc[w])
 Sealable(w) == Phase(w) /\ Pending(w) = {} /\ \A o \in Objects : tmp[w][o] = "none" /\ first[w] # "unlink"
 Protect(w, o) ==
-    /\ Sealable(w) /\ o \in Epilogue(w) /\ final[o] # "none" /\ ~prot[o]
-    /\ prot' = [prot EXCEPT ![o] = TRUE]
+    /\ Sealable(w) /\ o \in Epilogue(w) /\ final[o] # "none" /\ ~prot[o] /\ o \notin tried[w]
+    \* named behaviour: chmod of a file that another uid owns gives EPERM; protect() logs it and goes on - the owner
+    \* protects the object in its own epilogue
+    /\ prot' = IF Mixed /\ owner[o] # w THEN prot ELSE [prot EXCEPT ![o] = TRUE]
+    /\ tried' = [tried EXCEPT ![w] = @ \cup {o}]
     \* F7 (open): what is protected here may be the empty file a crash inside the reflink probe left behind
     /\ dev' = IF final[o] = "empty" /\ "F7" \in KnownDev THEN dev \cup {"F7"} ELSE dev
     /\ act' = [op |-> "Protect", w |-> w, o |-> o]
-    /\ UNCHANGED <<final, gen, vouch, tmp, pc, todo, batch, first, failedW, crashes, clock, probed>>
+    /\ UNCHANGED <<final, gen, vouch, tmp, pc, todo, batch, first, failedW, crashes, clock, probed, owner>>
 Vouch(w) ==
-    /\ Sealable(w) /\ \A o \in Epilogue(w) : final[o] # "none" => prot[o]
+    /\ Sealable(w) /\ \A o \in Epilogue(w) : final[o] # "none" => (prot[o] \/ o \in tried[w])
     /\ vouch' = [o \in Objects |-> IF o \in Epilogue(w) /\ final[o] # "none" THEN gen[o] ELSE vouch[o]]
     /\ dev' = IF (\E o \in Epilogue(w) : final[o] = "empty") /\ "F7" \in KnownDev THEN dev \cup {"F7"} ELSE dev
     /\ pc' = [pc EXCEPT ![w] = IF pc[w] = "files" THEN "dir" ELSE "done"]
     /\ first' = [first EXCEPT ![w] = "yes"] /\ batch' = [batch EXCEPT ![w] = {}]
+    /\ tried' = [tried EXCEPT ![w] = {}]
     /\ act' = [op |-> "Vouch", w |-> w]
-    /\ UNCHANGED <<final, prot, gen, tmp, todo, failedW, crashes, clock, probed>>
+    /\ UNCHANGED <<final, prot, gen, tmp, todo, failedW, crashes, clock, probed, owner>>
 
 \* transfer(): a batch in which nothing is new is not handed to add() at all
 NothingToSend(w) ==
     /\ Phase(w) /\ Style[w] = "transfer" /\ Pending(w) = {} /\ batch[w] = {} /\ first[w] = "yes"
     /\ pc' = [pc EXCEPT ![w] = IF pc[w] = "files" THEN "dir" ELSE "done"]
     /\ act' = [op |-> "NothingToSend", w |-> w]
-    /\ UNCHANGED <<final, prot, gen, vouch, tmp, todo, batch, first, probed, failedW, crashes, clock, dev>>
+    /\ UNCHANGED <<final, prot, gen, vouch, tmp, todo, batch, first, probed, failedW, crashes, clock, dev, owner, tried>>
 
 (***************************** crash and re-run *****************************)
 Crash ==
@@ -140,14 +148,15 @@ Crash ==
     /\ tmp' = tmp          \* temporaries stay behind under their temporary names
     /\ crashes' = crashes + 1
     /\ act' = [op |-> "Crash"]
-    /\ UNCHANGED <<final, prot, gen, vouch, todo, batch, first, failedW, clock, dev, probed>>
+    /\ UNCHANGED <<final, prot, gen, vouch, todo, batch, first, failedW, clock, dev, probed, owner, tried>>
 Rerun(w) ==
     /\ pc[w] = "crashed"
     /\ pc' = [pc EXCEPT ![w] = "query"] /\ todo' = [todo EXCEPT ![w] = {}] /\ batch' = [batch EXCEPT ![w] = {}]
     /\ first' = [first EXCEPT ![w] = "yes"]
     /\ tmp' = [tmp EXCEPT ![w] = [o \in Objects |-> "none"]]   \* a new run uses new temporary names
+    /\ tried' = [tried EXCEPT ![w] = {}]
     /\ act' = [op |-> "Rerun", w |-> w]
-    /\ UNCHANGED <<final, prot, gen, vouch, failedW, crashes, clock, dev, probed>>
+    /\ UNCHANGED <<final, prot, gen, vouch, failedW, crashes, clock, dev, probed, owner>>
 
 Next ==
     \/ \E w \in Writers : Query(w) \/ Vouch(w) \/ NothingToSend(w) \/ Rerun(w)
@@ -158,6 +167,7 @@ Init == /\ final = [o \in Objects |-> "none"] /\ prot = [o \in Objects |-> FALSE
         /\ vouch = [o \in Objects |-> 0] /\ tmp = [w \in Writers |-> [o \in Objects |-> "none"]]
         /\ pc = [w \in Writers |-> "query"] /\ todo = [w \in Writers |-> {}] /\ batch = [w \in Writers |-> {}]
         /\ first = [w \in Writers |-> "yes"] /\ probed = [w \in Writers |-> "-"] /\ failedW = {} /\ crashes = 0 /\ clock = 1 /\ dev = {} /\ act = [op |-> "Init"]
+        /\ owner = [o \in Objects |-> "-"] /\ tried = [w \in Writers |-> {}]
 Spec == Init /\ [][Next]_vars
 
 (******************************* properties *********************************)
